@@ -457,7 +457,7 @@ fn run_config(
 
 pub fn run(ctx: &mut Ctx, _args: &Args) {
     ctx.rule = "a comparison where BOTH FreeType and skrifa produced a non-empty regularised outline; digest = (font file+content hash, face index, glyph id, ppem, engine/target)".into();
-    ctx.level = "differential".into();
+    ctx.level = "exploration".into();
     ctx.assumptions = vec![
         "reference = the FreeType that fauntlet links (freetype-sys 0.17 bundled FreeType 2.12.1), driven through fauntlet's own adapter and RegularizingPen".into(),
         "skrifa built without `autohint_shaping` (default-features=false, features=[std]) exactly like fauntlet".into(),
